@@ -46,7 +46,7 @@ def main():
     cases = [('none', T.ret, (None,), {}), ('zero', T.ret, (0,), {}), ('empty', T.ret, ('',), {}), ('emptylist', T.ret, ([],), {}),
              ('nested', T.ret, ({'a': [1, (2, 3)], 'b': None},), {}), ('kw', T.add, (2,), {'b': 5}), ('record', T.record, (1, 'x'), {'k': [1]}),
              ('exc_args', T.raise_value_error, (7, 'seven'), {}), ('exc_noargs', T.raise_value_error, (), {}),
-             ('big_200k', T.blob, (200 * 1024,), {}), ('big_1m', T.blob, (1 << 20,), {}), ('just_under_buffer', T.blob, (60000,), {})]
+             ('big_200k', T.blob, (200 * 1024,), {}), ('big_1m', T.blob, (1 << 20,), {}), ('big_8m', T.blob, (8 << 20,), {}), ('just_under_buffer', T.blob, (60000,), {})]
     if want.startswith('Lf'):
         cases = [c for c in cases if c[0].startswith('big') or c[0].startswith('just')]
     try:
